@@ -2,11 +2,12 @@ CONSTANTS
   MaxMods = 1
   MaxItems = 1
   MaxInsns = 0
-  MinItems = 0
+  MinItems = 1
   MinInsns = 0
   Grid = "tiny"
-  Preamble = FALSE
-  Header = "free"
+  Preamble = TRUE
+  Header = "none"
+  OneFree = FALSE
   NonFinite = FALSE
 INIT Init
 NEXT Next
